@@ -92,9 +92,8 @@ Proof.
   assert (R0 : c_frame s s1) by (split; [|split]; auto).
   destruct (negb ok); [exact R0|].
   destruct k; cbn [fst].
-  - destruct (memb o (cur_coll s1)); cbn [fst].
-    + edestruct (coll_event_frame s1) as (A & B & C). eapply c_frame_touch; eauto.
-    + edestruct (coll_event1_frame s1) as (A & B & C). eapply c_frame_touch; eauto.
+  - destruct (memb o (cur_coll s1)); [|exact R0].
+    edestruct (coll_event_frame s1) as (A & B & C). eapply c_frame_touch; eauto.
   - destruct (memb o (cur_coll s1)); [|exact R0].
     edestruct (coll_event_frame s1) as (A & B & C). eapply c_frame_touch; eauto.
   - destruct (holder o (cur_coll s1)); [|exact R0]. destruct (v =? o); [|exact R0].
